@@ -114,6 +114,48 @@ class LineHooks(Hooks):
                 return base.attrs["segments"].get(key)
         return NotImplemented
 
+    def all_refkeys(self):
+        ks = getattr(self, "_all_refkeys", None)
+        if ks is None:
+            from .model import record_classes, record_table
+            ks = set()
+            for c in record_classes(self.repo):
+                ks.update(record_table(self.repo, c).refkeys)
+            self._all_refkeys = ks
+        return ks
+
+    def getattr(self, ev, base, attr):
+        """generated accessors the rules did not spell out: a FIELD_ALIAS
+        name reads the aliased field; `__dict__` is the instance dictionary"""
+        if isinstance(base, Abs) and attr not in base.attrs and \
+                base.cls is not None and hasattr(base.cls, "mro"):
+            if attr == "__dict__":
+                return base.attrs
+            if attr in self.all_refkeys() and \
+                    self.repo.cls("Line") in base.cls.mro:
+                # a reference getter the rule did not populate: the line has
+                # no such back-references yet
+                refs = base.attrs.get("_refs")
+                if isinstance(refs, dict):
+                    return refs.get(attr, [])
+                return []
+            try:
+                from .model import record_table
+                if self.repo.cls("Line") in base.cls.mro and \
+                        getattr(base.cls, "applies_definitions", False):
+                    alias = record_table(self.repo, base.cls).FIELD_ALIAS \
+                        or {}
+                    tgt = alias.get(attr)
+                    if tgt is not None:
+                        if tgt in base.attrs:
+                            return base.attrs[tgt]
+                        d = base.attrs.get("_data")
+                        if isinstance(d, dict) and tgt in d:
+                            return d[tgt]
+            except Exception:
+                pass
+        return NotImplemented
+
     def to_str(self, ev, v):
         if isinstance(v, Abs) and "name" in v.attrs and \
                 v.cls is not self.SegmentEnd and v.cls is not self.OrientedLine:
